@@ -379,7 +379,7 @@ def main(argv=None):
     }
     os.makedirs(EVID_DIR, exist_ok=True)
     json.dump(ev, open(os.path.join(EVID_DIR, f'{pid}.json'), 'w'), indent=1, default=str)
-    shutil.rmtree(workdir, ignore_errors=True)
+    if not os.environ.get("SYMTT_KEEP"): shutil.rmtree(workdir, ignore_errors=True)
     print(f"{pid} {tier}: instances={len(tasks)} paths={agg['paths']} decisions={agg['decisions']} "
           f"claims={agg['discharged']}/{agg['claims']} obligations={agg['obligations_discharged']}/"
           f"{agg['obligations']} validated={agg['validated']} violations={len(violations)} "
@@ -397,7 +397,7 @@ def do_replay(path):
     os.makedirs(workdir, exist_ok=True)
     rr = replay_one(rec['module'], rec['func'], rec['params'], rec['values'], rec.get('opts', {}),
                     workdir, 'x')
-    shutil.rmtree(workdir, ignore_errors=True)
+    if not os.environ.get("SYMTT_KEEP"): shutil.rmtree(workdir, ignore_errors=True)
     ok, obs = confirms(rec['failure'], rr)
     print(json.dumps({'reproduced': ok, 'observed': obs, 'claims': rr and rr['claims'],
                       'exception': rr and rr.get('exception')}, indent=1, default=str))
